@@ -294,7 +294,31 @@ func init() {
 	}
 	reg("internal/godebug.(*Setting).Value", func(in *Interp, fr *Frame, fn *ssa.Function, a []Value) Value { return Str{} })
 	reg("runtime.Gosched", func(in *Interp, fr *Frame, fn *ssa.Function, a []Value) Value {
-		in.sched.yield(fr, "Gosched")
+		// Gosched hands the processor over: the caller goes to the back of the round-robin order (a
+		// spin-wait on Gosched therefore lets the goroutines it waits for run, at no cost in the delay budget)
+		s := in.sched
+		if len(s.gs) == 1 || s.noYield > 0 || in.initDepth > 0 {
+			return nil
+		}
+		run, _ := s.enabled()
+		others := false
+		for _, g := range run {
+			if g != s.cur {
+				others = true
+			}
+		}
+		if !others {
+			s.yield(fr, "Gosched")
+			return nil
+		}
+		asked := false
+		s.block(fr, "Gosched", func() bool {
+			if !asked {
+				asked = true
+				return false
+			}
+			return true
+		})
 		return nil
 	})
 	reg("runtime.Callers", func(in *Interp, fr *Frame, fn *ssa.Function, a []Value) Value { return cI(in, 0) })
